@@ -30,10 +30,11 @@ type expectation struct {
 	removedEdges map[string]bool
 	ordered      bool // parallel connections must keep their relative order (connection delete)
 	allowExtra   bool // new objects may appear (containers created on a destination path)
+	globs        bool // the diagram has globs: what a glob gives an object depends on where the object is
 }
 
-func newExpectation(pre *PBoard) *expectation {
-	x := &expectation{by: map[string]*xObj{}, removedObjs: map[string]bool{}, removedEdges: map[string]bool{}}
+func newExpectation(r *Rec, pre *PBoard) *expectation {
+	x := &expectation{globs: strings.Contains(r.Pre, "*"), by: map[string]*xObj{}, removedObjs: map[string]bool{}, removedEdges: map[string]bool{}}
 	for _, o := range pre.Objs {
 		xo := &xObj{pre: o}
 		x.objs = append(x.objs, xo)
@@ -188,7 +189,13 @@ func (x *expectation) match(post *PBoard) *mismatch {
 		if a.Label != b.Label || a.Implicit != b.Implicit {
 			return &mismatch{"object-label-changed", fmt.Sprintf("object %s -> %s: label %q (implicit %v) -> %q (implicit %v)", a.Abs, b.Abs, a.Label, a.Implicit, b.Label, b.Implicit)}
 		}
-		if a.Attrs != b.Attrs {
+		relocated := o.free || (o.par == nil) != (a.Parent == "") || (o.par != nil && o.par.pre.Abs != a.Parent)
+		aa, ba := a.Attrs, b.Attrs
+		if relocated && strings.Contains(aa, `"language":`) {
+			// the shape of an object with a block-string label depends on the kind of its container
+			aa, ba = attrsWithoutShape(aa), attrsWithoutShape(ba)
+		}
+		if aa != ba && !(relocated && x.globs) {
 			return &mismatch{"object-attributes-changed", fmt.Sprintf("object %s -> %s: attributes\n  %s\n  ->\n  %s", a.Abs, b.Abs, a.Attrs, b.Attrs)}
 		}
 		if a.Near == "" && b.Near != "" {
@@ -203,6 +210,15 @@ func (x *expectation) match(post *PBoard) *mismatch {
 		}
 	}
 	return nil
+}
+
+func attrsWithoutShape(a string) string {
+	i := strings.Index(a, `"shape":{"value":"`)
+	if i < 0 {
+		return a
+	}
+	j := strings.Index(a[i+18:], `"`)
+	return a[:i+18] + a[i+18+j:]
 }
 
 type xEdge struct {
